@@ -20,6 +20,7 @@ import (
 
 var (
 	bigIntType  = reflect.TypeOf(big.Int{})
+	bitStrType  = reflect.TypeOf(boc.BitString{})
 	anyType     = reflect.TypeOf(tlb.Any{})
 	addrType    = reflect.TypeOf(tlb.MsgAddress{})
 	magicType   = reflect.TypeOf(tlb.Magic(0))
@@ -90,6 +91,10 @@ type binder struct {
 
 func shapeErr(t *Type, gv reflect.Value, what string) error {
 	return fmt.Errorf("schema type %s is generated as %v: %s", t, gv.Type(), what)
+}
+
+func isBitStringStruct(t reflect.Type) bool {
+	return t.Kind() == reflect.Struct && t.ConvertibleTo(bitStrType) && bitStrType.ConvertibleTo(t)
 }
 
 func isBigStruct(t reflect.Type) bool {
@@ -191,7 +196,17 @@ func (b *binder) toGo(t *Type, v *Val, gv reflect.Value) error {
 	case KUint, KInt, KNat, KNat32, KCoins, KVarUint:
 		return b.setInt(t, v.Big, gv)
 	case KBits:
-		if gv.Kind() != reflect.Array || gv.Type().Elem().Kind() != reflect.Uint8 || gv.Len() != len(v.Bytes) {
+		if isBitStringStruct(gv.Type()) { // the form the bits type generator writes for widths that are not whole bytes
+			bs := boc.NewBitString(t.N)
+			for _, bit := range ref.BitsFromBytes(v.Bytes, t.N) {
+				if err := bs.WriteBit(bit); err != nil {
+					return err
+				}
+			}
+			gv.Set(reflect.ValueOf(bs).Convert(gv.Type()))
+			break
+		}
+		if gv.Kind() != reflect.Array || gv.Type().Elem().Kind() != reflect.Uint8 || gv.Len() != len(v.Bytes) || t.N%8 != 0 {
 			return shapeErr(t, gv, "not a byte array of that size")
 		}
 		reflect.Copy(gv, reflect.ValueOf(v.Bytes))
@@ -356,6 +371,23 @@ func (b *binder) fromGo(t *Type, gv reflect.Value) (*Val, error) {
 		x, err := b.getInt(t, gv)
 		return &Val{Big: x}, err
 	case KBits:
+		if isBitStringStruct(gv.Type()) {
+			bs := gv.Convert(bitStrType).Interface().(boc.BitString)
+			bs.ResetCounter()
+			n := bs.BitsAvailableForRead()
+			bits := make(ref.Bits, 0, n)
+			for i := 0; i < n; i++ {
+				bit, err := bs.ReadBit()
+				if err != nil {
+					return nil, err
+				}
+				bits = append(bits, bit)
+			}
+			if n != t.N {
+				return nil, fmt.Errorf("%s decoded as a bit string of %d bits: %s", t, n, bits.FiftHex())
+			}
+			return &Val{Bytes: bits.Packed()}, nil
+		}
 		if gv.Kind() != reflect.Array || gv.Type().Elem().Kind() != reflect.Uint8 {
 			return nil, shapeErr(t, gv, "not a byte array")
 		}
@@ -454,6 +486,7 @@ func (b *binder) fromGo(t *Type, gv reflect.Value) (*Val, error) {
 		}
 		list := items.Call(nil)[0]
 		out := &Val{}
+		get := gv.MethodByName("Get")
 		for i := 0; i < list.Len(); i++ {
 			it := list.Index(i)
 			if it.Kind() != reflect.Struct || it.NumField() != 2 {
@@ -468,6 +501,16 @@ func (b *binder) fromGo(t *Type, gv reflect.Value) (*Val, error) {
 				return nil, err
 			}
 			out.Dict = append(out.Dict, DictEnt{Key: key, Val: val})
+			// the entry the dictionary lists must be the entry it finds under a key made from the same bits
+			if get.IsValid() && get.Type().NumIn() == 1 && get.Type().NumOut() == 2 {
+				k := reflect.New(get.Type().In(0)).Elem()
+				if err := b.setKey(t, key, k); err != nil {
+					return nil, err
+				}
+				if res := get.Call([]reflect.Value{k}); !res[1].Bool() {
+					return nil, fmt.Errorf("%s: the decoded dictionary lists key %s but Get does not find it", t, key.FiftHex())
+				}
+			}
 		}
 		// a dictionary is a map: the order in which the library lists the entries is not part of the value
 		sort.SliceStable(out.Dict, func(i, j int) bool { return out.Dict[i].Key.String() < out.Dict[j].Key.String() })
